@@ -133,11 +133,14 @@ func checkC01(c *Ctx) error {
 	// identifier interplay: pairs of getters that are distinct legal identifiers, with and without must-getters, over a pool
 	// in which one getter spells what another one's Must…/…InContext accessor is called. Whatever the tool decides about a
 	// pair, an accepted one has to compile (in both modes)
-	pool := []string{"er", "Muster", "erInContext", "x", "Mustx", "X", "MustX", "get", "Mustget", "MustgetInContext", "GetA", "GetAInContext", "MusterInContext", "Er"}
+	pool := []string{"er", "Muster", "erInContext", "x", "Mustx", "X", "MustX", "get", "Mustget", "MustgetInContext", "GetA", "GetAInContext", "MusterInContext", "Er",
+		// the names of what the generated file declares for itself (helper methods, locals, the embedded field): most are not
+		// legal getters today; should one ever be accepted, the output still has to compile
+		"_getEnv", "_getEnvInt", "_paramTodo", "_concatenateChunks", "_callProvider", "_x", "container", "Container_", "c", "s", "err", "result", "ctx", "New", "init", "main"}
 	gi := 0
 	for a := range pool {
 		for b := range pool {
-			if a == b || (!c.Thorough() && (a+b)%2 == 1 && a > 3 && b > 3) {
+			if a == b || (!c.Thorough() && (a+b)%2 == 1 && a > 3 && b > 3) || (a >= 14 && b >= 14 && (a+b)%3 != 0) {
 				continue
 			}
 			for _, must := range []bool{true, false} {
